@@ -561,8 +561,19 @@ func (p *Program) Run(entry string, in []uint32) ([]uint32, string) {
 	p.scopes = nil
 	p.steps = 0
 	p.words = append([]uint32(nil), in...)
-	var buffer *Val
+	var buffer, uniform *Val
+	var bufMode layoutMode
 	p.scopes = []map[string]*Val{{}}
+	bind := func(g *global, v *Val) {
+		if g.class == "buffer" && buffer == nil {
+			buffer, bufMode = v, p.modeOf(g)
+			loadImage(v, bufMode, in)
+		}
+		if g.class == "uniform" && uniform == nil {
+			uniform = v
+			loadImage(v, p.modeOf(g), p.Uniform)
+		}
+	}
 	for _, g := range p.globals {
 		var v *Val
 		if g.init != nil {
@@ -570,14 +581,18 @@ func (p *Program) Run(entry string, in []uint32) ([]uint32, string) {
 		} else {
 			v = zero(g.t)
 		}
-		if g.class == "buffer" && buffer == nil {
-			buffer = v
-			unflatten(v, in, 0)
-		}
+		bind(g, v)
 		if g.class == "shared" {
 			p.fillGarbage(v)
 		}
 		p.genv[g.name] = v
+	}
+	for _, g := range p.blocks {
+		v := zero(g.t)
+		bind(g, v)
+		for i, f := range g.t.Fields {
+			p.genv[f.Name] = v.E[i]
+		}
 	}
 	if p.d == GLSL {
 		for _, n := range []string{"gl_LocalInvocationID", "gl_LocalInvocationIndex", "gl_WorkGroupID", "gl_GlobalInvocationID", "gl_NumWorkGroups", "gl_WorkGroupSize"} {
@@ -590,8 +605,12 @@ func (p *Program) Run(entry string, in []uint32) ([]uint32, string) {
 	for i, prm := range f.params {
 		v := zero(prm.t)
 		if f.space[i] == "device" && buffer == nil {
-			buffer = v
-			unflatten(v, in, 0)
+			buffer, bufMode = v, layMSL
+			loadImage(v, layMSL, in)
+		}
+		if f.space[i] == "constant" && uniform == nil && prm.sem != "" && len(prm.sem) > 6 && prm.sem[:6] == "buffer" {
+			uniform = v
+			loadImage(v, layMSL, p.Uniform)
 		}
 		if f.space[i] == "threadgroup" {
 			p.fillGarbage(v)
@@ -620,11 +639,7 @@ func (p *Program) Run(entry string, in []uint32) ([]uint32, string) {
 	if buffer == nil {
 		return nil, "no storage buffer found in the emitted text"
 	}
-	var out []uint32
-	for _, c := range flatten(buffer, nil) {
-		out = append(out, c.S)
-	}
-	return out, ""
+	return storeImage(buffer, bufMode, in), ""
 }
 
 // fillGarbage fills workgroup storage with the stale words of a previous dispatch.
@@ -694,4 +709,171 @@ func rev32(x uint32) uint32 {
 	x = x>>4&0x0F0F0F0F | x&0x0F0F0F0F<<4
 	x = x>>8&0x00FF00FF | x&0x00FF00FF<<8
 	return x>>16 | x<<16
+}
+
+// ---- memory layout of buffer types (bytes), per target language ----
+
+type layoutMode int
+
+const (
+	layMSL    layoutMode = iota // C++ layout with Metal's vector sizes (vec3 = 16 bytes unless packed_)
+	layStd430                   // GLSL storage blocks
+	layStd140                   // GLSL uniform blocks: array strides and struct alignments rounded up to 16
+	layCBuf                     // HLSL constant-buffer packing (see placeCBuf)
+)
+
+func roundUp(a, n int) int { return (n + a - 1) / a * a }
+
+func layout(t *Type, m layoutMode) (size, align int) {
+	switch t.K {
+	case 'b', 'i', 'u', 'f':
+		if t.Bits == 8 {
+			return 1, 1
+		}
+		return 4, 4
+	case 'V':
+		es, _ := layout(t.Elem, m)
+		if m != layMSL {
+			switch t.N {
+			case 2:
+				return 2 * es, 2 * es
+			case 3:
+				return 3 * es, 4 * es
+			}
+			return 4 * es, 4 * es
+		}
+		if t.Packed {
+			return t.N * es, es
+		}
+		if t.N == 3 {
+			return 4 * es, 4 * es
+		}
+		return t.N * es, t.N * es
+	case 'M', 'A':
+		es, ea := layout(t.Elem, m)
+		if m == layStd140 {
+			ea = roundUp(16, ea)
+		}
+		return t.N * roundUp(ea, es), ea
+	case 'S':
+		off, maxA := 0, 1
+		for _, f := range t.Fields {
+			fs, fa := layout(f.T, m)
+			off = roundUp(fa, off) + fs
+			if fa > maxA {
+				maxA = fa
+			}
+		}
+		if m == layStd140 {
+			maxA = roundUp(16, maxA)
+		}
+		return roundUp(maxA, off), maxA
+	}
+	return 4, 4
+}
+
+// mapBytes visits every 32-bit scalar cell of v with its byte offset in the buffer image.
+func mapBytes(v *Val, base int, m layoutMode, visit func(cell *Val, byteOff int)) {
+	switch v.T.K {
+	case 'b', 'i', 'u', 'f':
+		if v.T.Bits != 8 {
+			visit(v, base)
+		}
+	case 'V':
+		es, _ := layout(v.T.Elem, m)
+		for i, e := range v.E {
+			mapBytes(e, base+i*es, m, visit)
+		}
+	case 'M', 'A':
+		es, ea := layout(v.T.Elem, m)
+		if m == layStd140 {
+			ea = roundUp(16, ea)
+		}
+		stride := roundUp(ea, es)
+		for i, e := range v.E {
+			mapBytes(e, base+i*stride, m, visit)
+		}
+	case 'S':
+		off := 0
+		for i, f := range v.T.Fields {
+			fs, fa := layout(f.T, m)
+			off = roundUp(fa, off)
+			mapBytes(v.E[i], base+off, m, visit)
+			off += fs
+		}
+	}
+}
+
+// placeCBuf lays v out by the HLSL packing rules for constant variables: every scalar takes
+// 4 bytes at the next free 4-byte slot; a vector is moved to the next 16-byte register when
+// it would straddle one; arrays, matrices and structs start on a register; every array
+// element (matrix row/column) starts on a register and the last one is not padded; a struct
+// is not padded at its end either, so what follows may share its last register. It returns
+// the first free byte after v.
+func placeCBuf(v *Val, off int, visit func(cell *Val, byteOff int)) int {
+	switch v.T.K {
+	case 'V':
+		n := 4 * len(v.E)
+		if off%16+n > 16 {
+			off = roundUp(16, off)
+		}
+		for i, e := range v.E {
+			visit(e, off+4*i)
+		}
+		return off + n
+	case 'M', 'A':
+		off = roundUp(16, off)
+		for _, e := range v.E {
+			off = placeCBuf(e, roundUp(16, off), visit)
+		}
+		return off
+	case 'S':
+		off = roundUp(16, off)
+		for _, e := range v.E {
+			off = placeCBuf(e, off, visit)
+		}
+		return off
+	}
+	visit(v, off)
+	return off + 4
+}
+
+func (p *Program) modeOf(g *global) layoutMode {
+	switch {
+	case p.d == MSL:
+		return layMSL
+	case p.d == HLSL:
+		return layCBuf
+	case g != nil && (g.std140 || g.class == "uniform"):
+		return layStd140
+	}
+	return layStd430
+}
+
+func visitImage(v *Val, m layoutMode, visit func(cell *Val, byteOff int)) {
+	if m == layCBuf {
+		placeCBuf(v, 0, visit)
+		return
+	}
+	mapBytes(v, 0, m, visit)
+}
+
+// loadImage fills the cells of a buffer value from its byte image (32-bit words).
+func loadImage(v *Val, m layoutMode, words []uint32) {
+	visitImage(v, m, func(c *Val, off int) {
+		if off%4 == 0 && off/4 < len(words) {
+			c.S = words[off/4]
+		}
+	})
+}
+
+// storeImage writes the cells of a buffer value back into a copy of the byte image.
+func storeImage(v *Val, m layoutMode, words []uint32) []uint32 {
+	out := append([]uint32(nil), words...)
+	visitImage(v, m, func(c *Val, off int) {
+		if off%4 == 0 && off/4 < len(out) {
+			out[off/4] = c.S
+		}
+	})
+	return out
 }
